@@ -100,17 +100,24 @@ func vC08MoveOn(h *vCS) {
 	vReach("moved-on")
 }
 
-func vC08State(h *vCS) {
+func vC08State(h *vCS) { vC08StateX(h, true) }
+
+func vC08StateX(h *vCS, withProposal bool) {
 	cs := h.cs
 	// receiver at an arbitrary step of round 0 or 1
-	cs.Step = RoundStepType(vNondetLen("step", 1, 8))
+	if withProposal {
+		cs.Step = RoundStepType(vNondetLen("step", 1, 8))
+	} else {
+		steps := []RoundStepType{RoundStepNewHeight, RoundStepPropose, RoundStepPrevote, RoundStepPrecommitWait, RoundStepCommit}
+		cs.Step = steps[vNondetLen("step", 0, len(steps)-1)]
+	}
 	if vNondetBool("round1") {
 		cs.Round = 1
 		cs.Votes.SetRound(2)
 	} else {
 		cs.Votes.SetRound(1)
 	}
-	if vNondetBool("hasproposal") {
+	if withProposal && vNondetBool("hasproposal") {
 		cs.Proposal = types.NewProposal(cs.Height, cs.Round, types.PartSetHeader{Total: 2, Hash: []byte{0xA}}, -1, types.BlockID{})
 		cs.ProposalBlockParts = types.NewPartSetFromHeader(cs.Proposal.BlockPartsHeader)
 	}
@@ -120,7 +127,7 @@ func vC08State(h *vCS) {
 func VerifHarness_C08_vote_message() {
 	n := vParam("N", 3)
 	h := vNewCS(n, 5, -1)
-	vC08State(h)
+	vC08StateX(h, false)
 	conR := vC08Reactor(h.cs)
 	peer, _ := vC08Peer()
 	var vote *types.Vote
